@@ -523,6 +523,17 @@ def subscript(I, obj, key, node=None, frame=None):
             raise X.Unsupported("subscript of symbolic string")
         r = ch[key]
         return mk_str(r if isinstance(r, list) else [r])
+    if isinstance(obj, SBytes) and isinstance(key, tuple) and key and key[0] == "slice" and key[1] is None and key[3] is None and isinstance(key[2], SInt):
+        # b[:n] with symbolic n >= 0: case split over the cut position (n >= len gives the whole string)
+        n = len(obj.items)
+        t = key[2].t
+        opts = [t == k for k in range(n)] + [t >= n, t < 0]
+        k = I.ctx.fork(opts, "slice-bound")
+        if k < n:
+            return SBytes(obj.items[:k])
+        if k == n:
+            return obj
+        raise X.Unsupported("negative symbolic slice bound")
     if isinstance(obj, SBytes):
         if isinstance(key, (Sym, tuple)):
             raise X.Unsupported("symbolic index into bytes")
@@ -861,7 +872,7 @@ def m_int_from_bytes(I, args, kwargs):
     byteorder = args[1] if len(args) > 1 else kwargs.get("byteorder", "big")
     signed = kwargs.get("signed", False)
     if isinstance(data, SBytes):
-        items = list(data.items)
+        items = [SInt(x) if z3.is_expr(x) else x for x in data.items]
     else:
         items = yield from I.iterate_all(data)
     if isinstance(byteorder, Sym) or isinstance(signed, Sym):
